@@ -24,12 +24,22 @@ C08_CLAUSES = {"Sound", "CompleteTx", "CompleteLatest", "GapReported", "Furthest
 C15_CLAUSES = {"TsExcluded", "TsMonotone", "TsPrecise"}
 MC_INVS_C08 = "Sound CompleteTx CompleteLatest GapReported FurthestLatest TsExcluded TsFurthest TsMonotone ErrKinds"
 
-BOUNDS = {   # tier -> constants of the exhaustive space
-    "quick":    dict(N=4, Levels=[0, 1, 2, 9], MaxFiles=3, MaxTs=2, Parts=1, Fanout=True, cfg="MC_RestorePlan_quick.cfg", chunk=30000),
-    "thorough": dict(N=5, Levels=[0, 1, 2, 9], MaxFiles=4, MaxTs=2, Parts=4, Fanout=True, cfg="MC_RestorePlan_thorough.cfg", chunk=100000),
+LV = [0, 1, 2, 9]
+# tier -> the exhaustive spaces.  Target-TXID / latest requests do not depend on file timestamps, so they are enumerated
+# with one file timestamp (all requests); the timestamp requests with two file timestamps (TsOnly).
+BOUNDS = {
+    "quick": [
+        dict(N=4, Levels=LV, MaxFiles=3, MaxTs=1, Parts=1, Fanout=True, TsOnly=False, cfg="MC_RestorePlan_quick_tx.cfg"),
+        dict(N=4, Levels=LV, MaxFiles=3, MaxTs=2, Parts=1, Fanout=True, TsOnly=True, cfg="MC_RestorePlan_quick_ts.cfg"),
+    ],
+    "thorough": [
+        dict(N=5, Levels=LV, MaxFiles=4, MaxTs=1, Parts=2, Fanout=True, TsOnly=False, cfg="MC_RestorePlan_thorough_tx.cfg"),
+        dict(N=4, Levels=LV, MaxFiles=4, MaxTs=2, Parts=2, Fanout=True, TsOnly=True, cfg="MC_RestorePlan_thorough_ts.cfg"),
+        # the literal "every file set is an initial state, 16 single-worker processes" form, small bound
+        dict(N=3, Levels=LV, MaxFiles=3, MaxTs=2, Parts=16, Fanout=False, TsOnly=False, cfg="MC_RestorePlan_init.cfg"),
+    ],
 }
-# the literal "every file set is an initial state, 16 single-worker processes" form, small bound (thorough tier cross-check)
-INIT_BOUND = dict(N=3, Levels=[0, 1, 2, 9], MaxFiles=3, MaxTs=2, Parts=16, Fanout=False, cfg="MC_RestorePlan_init.cfg", chunk=30000)
+CHUNK = {"quick": 30000, "thorough": 100000}      # log lines per judge process
 
 _DIV = re.compile(r'<<"DIVERGENCE", (-?\d+), (-?\d+), (-?\d+)>>')
 _NOTE = re.compile(r'<<"NOTE", "(\w+)", (-?\d+), (-?\d+), (-?\d+)>>')
@@ -56,30 +66,44 @@ def enum_sets(b):
                 yield sh, [[k[0], k[1], k[2], t] for k, t in zip(comb, tf)]
 
 
-def reqs_of(b, only_ts=False):
-    r = [] if only_ts else [[tx, 0] for tx in range(0, b["N"] + 1)]
+def reqs_of(b):
+    r = [] if b["TsOnly"] else [[tx, 0] for tx in range(0, b["N"] + 1)]
     return r + [[0, t] for t in range(1, b["MaxTs"] + 2)]
 
 
-def write_exhaustive(b, wd, only_ts=False, write=True):
-    """input files of <= b["chunk"] file sets; returns ([(name, path)], [number of file sets per Part])"""
+class CaseWriter:
+    """input files of <= chunk cases each"""
+
+    def __init__(self, wd, prefix, chunk):
+        self.wd, self.prefix, self.chunk = wd, prefix, chunk
+        self.inputs, self.fh, self.n = [], None, 0
+
+    def add(self, line):
+        if self.n % self.chunk == 0:
+            self.close()
+            name = "%s%d" % (self.prefix, self.n // self.chunk)
+            self.inputs.append((name, os.path.join(self.wd, name + ".in.ndjson")))
+            self.fh = open(self.inputs[-1][1], "w", buffering=1 << 20)
+        self.fh.write(line)
+        self.fh.write("\n")
+        self.n += 1
+
+    def close(self):
+        if self.fh:
+            self.fh.close()
+            self.fh = None
+
+
+def write_exhaustive(b, cw, id0=0):
+    """every file set of bound b with b's requests -> cw; returns the number of file sets per Part"""
     counts = [0] * b["Parts"]
-    rq = json.dumps(reqs_of(b, only_ts), separators=(",", ":"))
-    inputs, fh, i = [], None, 0
+    rq = json.dumps(reqs_of(b), separators=(",", ":"))
+    i = id0
     for sh, files in enum_sets(b):
         counts[sh] += 1
-        if write:
-            if i % b["chunk"] == 0:
-                if fh:
-                    fh.close()
-                name = "ex%d" % (i // b["chunk"])
-                inputs.append((name, os.path.join(wd, name + ".in.ndjson")))
-                fh = open(inputs[-1][1], "w", buffering=1 << 20)
-            fh.write('{"id":%d,"files":%s,"reqs":%s}\n' % (i, json.dumps(files, separators=(",", ":")), rq))
+        cw.add('{"id":%d,"files":%s,"reqs":%s}' % (i, json.dumps(files, separators=(",", ":")), rq))
         i += 1
-    if fh:
-        fh.close()
-    return inputs, counts
+    return counts
 
 
 # ------------------------------------------------------------------------------------------------
@@ -175,11 +199,11 @@ def model_check(rep, wd, b, invariants, label):
     """R1: all shards of the exhaustive space in parallel. Returns per-shard numbers of initial states."""
     cfg = open(os.path.join(vlib.SPEC, b["cfg"])).read()
     cfg = re.sub(r"INVARIANTS .*", "INVARIANTS " + invariants, cfg)
-    if "Parts = %d" % b["Parts"] not in cfg:
-        raise vlib.MachineryError("%s does not declare Parts = %d" % (b["cfg"], b["Parts"]))
 
-    if ("Fanout = TRUE" in cfg) != b["Fanout"]:
-        raise vlib.MachineryError("%s: Fanout differs from the runner's table" % b["cfg"])
+    for k in ("N", "MaxFiles", "MaxTs", "Parts", "Fanout", "TsOnly"):
+        want = "%s = %s" % (k, str(b[k]).upper() if isinstance(b[k], bool) else b[k])
+        if not re.search(r"^\s*%s\s*$" % re.escape(want), cfg, re.M):
+            raise vlib.MachineryError("%s does not declare %s (runner's table)" % (b["cfg"], want))
     nproc = min(b["Parts"], vlib.NCPU)
     workers = max(1, vlib.NCPU // nproc) if b["Fanout"] else 1
 
@@ -203,8 +227,9 @@ def model_check(rep, wd, b, invariants, label):
         tot.wall = max(tot.wall, r.wall)
         tot.depth = max(tot.depth, r.depth)
     tot.violated = sorted(violated)
-    rep.add_tlc(label, tot, "N=%d Levels=%s MaxFiles=%d MaxTs=%d, %d TLC process(es) x %d workers, Fanout=%s, invariants: %s" % (
-        b["N"], b["Levels"], b["MaxFiles"], b["MaxTs"], b["Parts"], workers, b["Fanout"], invariants))
+    rep.add_tlc(label, tot, "N=%d Levels=%s MaxFiles=%d MaxTs=%d requests=%s, %d TLC process(es) x %d workers, Fanout=%s, invariants: %s" % (
+        b["N"], b["Levels"], b["MaxFiles"], b["MaxTs"], "timestamp only" if b["TsOnly"] else "all", b["Parts"], workers,
+        b["Fanout"], invariants))
     if violated:
         rep.notes.append("design-level counterexample in RestorePlan.tla (%s): %s (verdict only if the real code shows it)" % (
             label, sorted(violated)))
@@ -213,8 +238,9 @@ def model_check(rep, wd, b, invariants, label):
     return [r.distinct - extra for r in rs]
 
 
-def drive(binary, inp, out):
-    p = vlib.run([binary, "-in", inp, "-out", out], timeout=1800)
+def drive(binary, inp, out, obs):
+    """real CalcRestorePlan on every case of `inp`; `out` readable ndjson, `obs` the same as integers for TLC"""
+    p = vlib.run([binary, "-in", inp, "-out", out, "-obs", obs], timeout=1800)
     return json.loads(p.stdout.strip().splitlines()[-1])
 
 
@@ -232,20 +258,6 @@ def judge_file(wd, name, obs_path, workers):
     return r, v, dv, nt, d
 
 
-def nontrivial(line):
-    """distinct (file set, request) pairs in which the planner had to do something: a plan of >= 2 files, a gap
-    error, or `not found` although some file reaches the target / some file exists"""
-    n = 0
-    for q, res in zip(line["reqs"], line["res"]):
-        if res["err"] == "none" and len(res["plan"]) >= 2:
-            n += 1
-        elif res["err"] == "gap":
-            n += 1
-        elif res["err"] == "notfound" and any(f[2] >= max(q[0], 1) for f in line["files"]):
-            n += 1
-    return n
-
-
 def run_batches(rep, wd, binary, inputs, clauses, prop, label, keep_samples=True):
     """inputs: list of (name, input path). Drives the real code and judges every file in parallel.
     Returns stats dict. Verdicts on `clauses` become violations of `prop`; others are noted."""
@@ -255,28 +267,30 @@ def run_batches(rep, wd, binary, inputs, clauses, prop, label, keep_samples=True
     def one(item):
         name, inp = item
         out = os.path.join(wd, name + ".out.ndjson")
-        info = drive(binary, inp, out)
-        lines_nt, by_id, sample, realistic = 0, None, None, 0
+        obs = os.path.join(wd, name + ".obs.ndjson")
+        info = drive(binary, inp, out, obs)
         with open(out) as fh:
-            for k, ln in enumerate(fh):
-                o = json.loads(ln)
-                lines_nt += nontrivial(o)
-                if k == 0:
-                    sample = o
-        r, v, dv, nt, d = judge_file(wd, name, out, workers)
-        bad = {}
-        if v or dv or nt:
+            first = fh.readline()
+        sample = json.loads(first) if first.strip() else None
+        r, v, dv, nt, d = judge_file(wd, name, obs, workers)
+        by_id = {}
+        if v or dv or nt:       # fetch the readable record of every log line TLC pointed at
             want = set(x[1] for x in v) | set(x[0] for x in dv) | set(x[1] for x in nt)
-            with open(os.path.join(d, "restoreplan_obs.ndjson")) as fh:
+            with open(out) as fh:
                 by_id = {k + 1: json.loads(ln) for k, ln in enumerate(fh) if k + 1 in want}
         shutil.rmtree(d, ignore_errors=True)
         os.unlink(inp)
-        return dict(name=name, info=info, r=r, v=v, dv=dv, nt=nt, lines=by_id or {}, nontrivial=lines_nt, sample=sample)
+        os.unlink(out)
+        if info.get("other_errors"):
+            by_id["other_errors"] = info["other_errors"]
+        return dict(name=name, info=info, r=r, v=v, dv=dv, nt=nt, lines=by_id, nontrivial=info["nontrivial"], sample=sample)
     results = par(one, inputs, workers=nproc)
     st = dict(cases=0, evals=0, nontrivial=0, divergences=0, verdict_cases=0, other_clause_hits=0)
     tot = vlib.TlcResult()
     tot.ok = True
     for x in results:
+        if x["lines"].get("other_errors") and len(rep.notes) < 12:
+            rep.notes.append("unclassified errors returned by the real CalcRestorePlan: %s" % json.dumps(x["lines"]["other_errors"])[:400])
         st["cases"] += x["info"]["cases"]
         st["evals"] += x["info"]["evals"]
         st["nontrivial"] += x["nontrivial"]
@@ -361,7 +375,6 @@ def main():
         "exhaustive for the stated bound only (TXIDs 1..N, levels {0,1,2,9}, <= MaxFiles files, MaxTs distinct file times); larger inputs are sampled (seeded)",
         "FurthestLatest reads 'the latest state' as the furthest TXID reachable by any valid chain",
     ]
-    b = BOUNDS[tier]
     wd = vlib.scratch("c08-")
     try:
         binary, _ = vlib.go_build("./cmd/restoreplan", "restoreplan")
@@ -374,45 +387,38 @@ def main():
             rep.cov["traces_validated_against_impl"] = st["cases"]
             return rep.finish()
 
-        # R1 exhaustive: transcription |= declarative spec
-        inits = model_check(rep, wd, b, MC_INVS_C08, b["cfg"][:-4])
+        # R1 exhaustive: transcription |= declarative spec;  R2 the same input spaces, enumerated here
+        cw = CaseWriter(wd, "ex", CHUNK[tier])
+        rep.cov["input_space"] = []
+        for b in BOUNDS[tier]:
+            inits = model_check(rep, wd, b, MC_INVS_C08, b["cfg"][:-4])
+            counts = write_exhaustive(b, cw, id0=cw.n)
+            if counts != inits:
+                raise vlib.MachineryError("input space mismatch (%s): python enumerates %d file sets (%s...), TLC %d (%s...)" % (
+                    b["cfg"], sum(counts), counts[:4], sum(inits), inits[:4]))
+            rep.cov["input_space"].append({"cfg": b["cfg"], "file_sets": sum(counts), "requests_per_set": len(reqs_of(b)),
+                                           "tlc_file_set_states": sum(inits), "tlc_processes": b["Parts"],
+                                           "file_sets_are_initial_states": not b["Fanout"]})
         rep.cov["exhaustive"] = True
-
-        # R2 the same input space, enumerated here
-        inputs, counts = write_exhaustive(b, wd)
-        if counts != inits:
-            raise vlib.MachineryError("input space mismatch: python enumerates %d file sets (%s...), TLC %d (%s...)" % (
-                sum(counts), counts[:4], sum(inits), inits[:4]))
-        rep.cov["input_space"] = {"file_sets": sum(counts), "requests_per_set": len(reqs_of(b)),
-                                  "tlc_file_set_states": sum(inits), "tlc_processes": b["Parts"]}
-        if tier == "thorough":
-            ii = model_check(rep, wd, INIT_BOUND, MC_INVS_C08, "MC_RestorePlan_init (file sets as initial states, 16 processes)")
-            _, cc = write_exhaustive(INIT_BOUND, wd, write=False)
-            if cc != ii:
-                raise vlib.MachineryError("input space mismatch (initial-state form): python %s..., TLC %s..." % (cc[:4], ii[:4]))
-            rep.cov["input_space"]["init_form"] = {"file_sets": sum(cc), "tlc_initial_states": sum(ii), "shards": 16}
+        # seeded random larger cases
+        nrand = 2000 if tier == "quick" else 60000
+        n_ex = cw.n
+        for c in random_cases(seed, nrand, 10 ** 7):
+            cw.add(json.dumps(c, separators=(",", ":")))
+        cw.close()
         # R3 real code + judge
-        st = run_batches(rep, wd, binary, inputs, C08_CLAUSES, PROP, "exhaustive")
-        # random larger cases
-        nrand = 3000 if tier == "quick" else 60000
-        rc = random_cases(seed, nrand, 10 ** 7)
-        rin = []
-        for k in range(0, len(rc), b["chunk"]):
-            pth = os.path.join(wd, "rnd%d.in.ndjson" % k)
-            write_cases(pth, rc[k:k + b["chunk"]])
-            rin.append(("rnd%d" % k, pth))
-        st2 = run_batches(rep, wd, binary, rin, C08_CLAUSES, PROP, "random")
-        rep.cov["traces_validated_against_impl"] = st["evals"] + st2["evals"]
-        rep.cov["evaluations"] = st["evals"] + st2["evals"]
-        rep.cov["distinct_nontrivial"] = st["nontrivial"] + st2["nontrivial"]
-        rep.cov["divergences"] = st["divergences"] + st2["divergences"]
-        rep.cov["cases"] = {"exhaustive": st, "random": st2}
+        st = run_batches(rep, wd, binary, cw.inputs, C08_CLAUSES, PROP, "exhaustive + random")
+        st["exhaustive_file_sets"], st["random_file_sets"] = n_ex, nrand
+        rep.cov["traces_validated_against_impl"] = st["evals"]
+        rep.cov["evaluations"] = st["evals"]
+        rep.cov["distinct_nontrivial"] = st["nontrivial"]
+        rep.cov["divergences"] = st["divergences"]
+        rep.cov["cases"] = st
         rep.cov["rule"] = ("evaluation = one real CalcRestorePlan call (file set, request) judged by TLC; inputs = every file set of the "
-                           "TLC-enumerated space x every request + seeded random larger sets; non-trivial = distinct (file set, request) "
+                           "TLC-enumerated spaces x every request + seeded random larger sets; non-trivial = distinct (file set, request) "
                            "whose real result is a plan of >= 2 files, a gap error, or not-found although a file reaches the target")
-        if st["other_clause_hits"] + st2["other_clause_hits"]:
-            rep.notes.append("%d hits of C15-only clauses (TsMonotone/TsPrecise) on real output: see c15.py" % (
-                st["other_clause_hits"] + st2["other_clause_hits"]))
+        if st["other_clause_hits"]:
+            rep.notes.append("%d hits of C15-only clauses (TsMonotone/TsPrecise) on real output: see c15.py" % st["other_clause_hits"])
         return rep.finish()
     finally:
         shutil.rmtree(wd, ignore_errors=True)
